@@ -758,6 +758,8 @@ func (f *FuncCtx) assertTo(st *State, v Term, to types.Type, commaOk bool, site 
 		f.declareFun(fn, []string{SInt}, s)
 		okc = fmt.Sprintf("(and (not (= %s 0)) (= (dyntype %s) %d))", v.S, v.S, f.w.typeID(to))
 		res = Term{S: "(" + fn + " " + v.S + ")", Sort: s, GoT: to}
+		// typing facts of the unboxed value (slice lengths are non-negative, integer ranges ...)
+		f.typeFacts(st, res)
 	}
 	if !commaOk {
 		f.panicIf(st, "(not "+okc+")", site)
